@@ -71,21 +71,37 @@ func (parser *Parser) nextLineBytes() ([]byte, error) {
 
 // get next bulk message bytes of length num.
 func (parser *Parser) nextLengthBytes(num int) ([]byte, error) {
+	if maxBulkLength < num {
+		return nil, fmt.Errorf(errorTooLargeBulkStringLength, num, maxBulkLength)
+	}
 	n := num + 2 // + crlf
-	buf := make([]byte, n)
-	totalRead := 0
-	for totalRead < n {
-		read, err := parser.reader.Read(buf[totalRead:])
+	// Grows the buffer as the bytes arrive instead of trusting the declared length.
+	bufSize := n
+	if readBufferSize < bufSize {
+		bufSize = readBufferSize
+	}
+	buf := make([]byte, 0, bufSize)
+	for len(buf) < n {
+		if len(buf) == cap(buf) {
+			newCap := cap(buf) * 2
+			if n < newCap {
+				newCap = n
+			}
+			newBuf := make([]byte, len(buf), newCap)
+			copy(newBuf, buf)
+			buf = newBuf
+		}
+		read, err := parser.reader.Read(buf[len(buf):cap(buf)])
+		buf = buf[:len(buf)+read]
 		if err != nil {
 			if err == io.EOF {
-				if totalRead+read < n {
-					return nil, fmt.Errorf(errorInvalidBulkStringLength, totalRead+read, num)
+				if len(buf) < n {
+					return nil, fmt.Errorf(errorInvalidBulkStringLength, len(buf), num)
 				}
 				break
 			}
 			return nil, err
 		}
-		totalRead += read
 	}
 	if buf[num] != cr || buf[num+1] != lf {
 		return nil, fmt.Errorf(errorInvalidBulkStringDelim, buf[num:n])
